@@ -95,6 +95,9 @@ pub(crate) struct Probe {
     pub rx: UnboundedReceiver<ProbeCmd>,
     /// how long inbound substreams are held before being dropped
     pub inbound_hold_ms: u64,
+    /// write half of a received substream is shut down at once and the object kept for reading
+    /// until the hold expires (request/response idiom): 0 never, 1 always, 2 every other one
+    pub half_close: u64,
 }
 
 pub(crate) fn peer_index(seed: u64, total: usize, p: &PeerId) -> usize {
@@ -119,6 +122,7 @@ impl UserProtocol for Probe {
         // substreams held open: (drop at, substream)
         let mut held: Vec<(tokio::time::Instant, usize, Substream)> = Vec::new();
         let mut hold_for: BTreeMap<String, u64> = BTreeMap::new();
+        let mut opened_count = 0u64;
         let mut cmds_open = true;
         loop {
             let next_drop = held.iter().map(|h| h.0).min();
@@ -183,6 +187,14 @@ impl UserProtocol for Probe {
                         let out_id = match direction { Direction::Inbound => None, Direction::Outbound(id) => Some(format!("{id:?}")) };
                         let hold = out_id.as_ref().and_then(|i| hold_for.remove(i)).unwrap_or(self.inbound_hold_ms);
                         push(&self.log, &self.handle, node, K::PSubOpened { proto: idx, peer: p, out_id });
+                        let mut substream = substream;
+                        opened_count += 1;
+                        if self.half_close == 1 || (self.half_close == 2 && opened_count % 2 == 0) {
+                            // the substream object lives on (and keeps its permit) after the shutdown
+                            let r = tokio::time::timeout(Duration::from_millis(200), futures::SinkExt::close(&mut substream)).await;
+                            self.handle.probe("probe-half-closed");
+                            self.handle.event(format!("n{node} proto {idx}: half-closed substream to n{p}: {}", match r { Ok(Ok(())) => "ok".to_string(), Ok(Err(e)) => format!("{e:?}"), Err(_) => "timeout".to_string() }));
+                        }
                         held.push((tokio::time::Instant::now() + Duration::from_millis(hold), p, substream));
                     }
                     Some(TransportEvent::SubstreamOpenFailure { substream, .. }) => {
@@ -386,6 +398,7 @@ impl Prop for ConnProp {
         }
         // which nodes lack probe b (unsupported-protocol substream failures)
         let lacking: Vec<u64> = (1..=n as u64).filter(|_| rng.chance(1, 5)).collect();
+        let half_close = if rng.chance(1, 4) { *rng.pick(&[1u64, 2]) } else { 0 };
         json!({
             "property": self.id,
             "seed": seed,
@@ -394,6 +407,7 @@ impl Prop for ConnProp {
             "net": NetKnobs::gen(&mut rng),
             "node_knobs": knobs,
             "no_probe_b": lacking,
+            "half_close": half_close,
             "ops": ops,
             "faults": faults,
         })
@@ -460,7 +474,7 @@ impl Prop for ConnProp {
                         continue;
                     }
                     let (tx, rx) = unbounded_channel();
-                    b = b.with_user_protocol(Box::new(Probe { node: i, idx, name: ProtocolName::from(*name), seed, nodes_total: total, log: log.clone(), handle: handle.clone(), rx, inbound_hold_ms: 50 }));
+                    b = b.with_user_protocol(Box::new(Probe { node: i, idx, name: ProtocolName::from(*name), seed, nodes_total: total, log: log.clone(), handle: handle.clone(), rx, inbound_hold_ms: 50, half_close: case["half_close"].as_u64().unwrap_or(0) }));
                     txs.push(Some(tx));
                 }
                 let mut l = match Litep2p::new(b.build()) {
